@@ -290,10 +290,95 @@ func genFloat(t *rapid.T) Case {
 	return Case{Form: form, Src: lit, Want: want}
 }
 
+// ratDecimal writes a rational whose denominator divides a power of ten as an exact decimal (no exponent).
+func ratDecimal(r *big.Rat) string {
+	num, den := new(big.Int).Set(r.Num()), new(big.Int).Set(r.Denom())
+	// scale to a power-of-ten denominator
+	k := 0
+	ten := big.NewInt(10)
+	for pow := big.NewInt(1); ; k++ {
+		if new(big.Int).Rem(pow, den).Sign() == 0 {
+			num.Mul(num, new(big.Int).Quo(pow, den))
+			break
+		}
+		pow = new(big.Int).Mul(pow, ten)
+		if k > 1200 {
+			return ""
+		}
+	}
+	digits := num.String()
+	neg := strings.HasPrefix(digits, "-")
+	digits = strings.TrimPrefix(digits, "-")
+	for len(digits) <= k {
+		digits = "0" + digits
+	}
+	out := digits[:len(digits)-k] + "." + digits[len(digits)-k:]
+	if k == 0 {
+		out = digits + ".0"
+	}
+	if neg {
+		out = "-" + out
+	}
+	return out
+}
+
+// genMidpointFloat: literals exactly on, just above and just below the midpoint of two adjacent float64 values
+// (where a conversion that rounds twice goes wrong).
+func genMidpointFloat(t *rapid.T) Case {
+	mant := rapid.Uint64Range(1<<52, 1<<53-1).Draw(t, "mantissa")
+	if rapid.IntRange(0, 3).Draw(t, "small mantissa") == 0 {
+		mant = 1<<52 + rapid.Uint64Range(0, 8).Draw(t, "m2")
+	}
+	exp := rapid.IntRange(-90, 40).Draw(t, "exp2")
+	x := new(big.Rat).SetFrac(new(big.Int).SetUint64(mant), big.NewInt(1))
+	scale := new(big.Rat).SetInt(new(big.Int).Exp(big.NewInt(2), big.NewInt(int64(abs(exp))), nil))
+	if exp >= 0 {
+		x.Mul(x, scale)
+	} else {
+		x.Quo(x, scale)
+	}
+	ulp := new(big.Rat).SetInt64(1)
+	if exp >= 0 {
+		ulp.Mul(ulp, scale)
+	} else {
+		ulp.Quo(ulp, scale)
+	}
+	mid := new(big.Rat).Add(x, new(big.Rat).Quo(ulp, big.NewRat(2, 1)))
+	// a nudge far below anything a 64, 80 or 128 bit intermediate can see
+	nudge := new(big.Rat).SetFrac(big.NewInt(1), new(big.Int).Exp(big.NewInt(10), big.NewInt(int64(rapid.SampledFrom([]int{25, 40, 60, 120}).Draw(t, "nudge digits")+len(ratDecimal(mid)))), nil))
+	var r *big.Rat
+	switch rapid.IntRange(0, 2).Draw(t, "side") {
+	case 0:
+		r = mid
+	case 1:
+		r = new(big.Rat).Add(mid, nudge)
+	default:
+		r = new(big.Rat).Sub(mid, nudge)
+	}
+	lit := ratDecimal(r)
+	if lit == "" {
+		return genFloat(t)
+	}
+	want := "ERROR"
+	if v, fin := nearest(r); fin {
+		want = fmt.Sprintf("floatbits:%016x", math.Float64bits(v))
+	}
+	return Case{Form: "midpoint-float", Src: lit, Want: want}
+}
+
+func abs(i int) int {
+	if i < 0 {
+		return -i
+	}
+	return i
+}
+
 func TestNumericLiterals(t *testing.T) {
 	vt.Check(t, vt.N(12000, 900000), func(rt *rapid.T) {
 		var c Case
-		if rapid.IntRange(0, 2).Draw(rt, "kind") == 0 {
+		if k := rapid.IntRange(0, 5).Draw(rt, "kind"); k == 0 {
+			c = genMidpointFloat(rt)
+		} else if k < 3 {
 			c = genFloat(rt)
 		} else {
 			c = genInt(rt)
